@@ -371,8 +371,10 @@ class World:
             bases = tuple(self.layers[b] for b in lspec.get('bases', ()))
             hooks = lspec.get('hooks', ['setUp', 'tearDown', 'testSetUp',
                                         'testTearDown'])
+            # (convention: 'zz_*' layers claim to live in module zzmod)
+            lmod = 'zzmod' if lname.startswith('zz_') else self.module_name
             if lspec.get('kind', 'class') == 'class':
-                d = {'__module__': self.module_name}
+                d = {'__module__': lmod}
                 for h in hooks:
                     run = self._hook(lname, h)
 
@@ -384,7 +386,7 @@ class World:
                 layer = type(lname, bases or (object,), d)
             else:
                 layer = (_FalsyInstanceLayer if lspec.get('falsy') else _InstanceLayer)(
-                    lspec.get('pyname', lname), bases, self.module_name)
+                    lspec.get('pyname', lname), bases, lmod)
                 for h in hooks:
                     run = self._hook(lname, h)
                     setattr(layer, h, (lambda run=run, n=lname: run(n)))
